@@ -31,6 +31,7 @@ struct OpResult {
 	std::vector<std::string> cbs; // callback invocation log
 	std::string dump;     // canonical dump of the op's context after the op (when requested)
 	std::string out;      // bytes that appeared on stdout during the op
+	uint64_t stdin_read = 0; // bytes taken from the process's standard input during the op
 	DeathKind death = D_NONE;
 	std::string death_info;
 	bool fail_fired = false;
